@@ -13,6 +13,8 @@ import (
 	"sort"
 	"strconv"
 	"strings"
+	"time"
+	_ "time/tzdata"
 
 	"github.com/vapourismo/knx-go/knx/dpt"
 )
@@ -219,4 +221,27 @@ func packOwned(d dpt.Datapoint) []byte {
 		enc[i] = 0xa5
 	}
 	return cp
+}
+
+// zonesWithOddMidnights: local time zones in which some calendar days have no midnight (daylight saving starting at
+// 00:00) or do not exist at all (a jump across the date line), plus ordinary ones. A KNX date is a triple of numbers;
+// what the process's local zone is must not matter to any codec.
+var zonesWithOddMidnights = []string{"America/Sao_Paulo", "America/Havana", "America/Santiago", "America/Asuncion", "Atlantic/Azores", "Pacific/Apia",
+	"Pacific/Kiritimati", "Asia/Tehran", "Asia/Amman", "Asia/Beirut", "Africa/Cairo", "Europe/Berlin", "America/New_York", "Australia/Lord_Howe", "UTC"}
+
+// underZones runs fn once per zone with time.Local set to it (sequentially; time.Local is restored afterwards). It
+// returns the zones that could not be loaded.
+func underZones(fn func(zone string)) (missing []string) {
+	saved := time.Local
+	defer func() { time.Local = saved }()
+	for _, z := range zonesWithOddMidnights {
+		loc, err := time.LoadLocation(z)
+		if err != nil {
+			missing = append(missing, z)
+			continue
+		}
+		time.Local = loc
+		fn(z)
+	}
+	return missing
 }
